@@ -359,6 +359,15 @@ class WhereIdx:
         self.mask = mask
 
 
+class IndexSeq:
+    """np.where(mask)[0] for a 1-D mask: the increasing sequence of True indices."""
+
+    def __init__(self, mask):
+        self.mask = mask
+        self.first = None
+        self.last = None
+
+
 class Gather:
     """x[mask] / x[np.where(mask)]: the elements of x selected by mask, as a 1-D array of
     unknown length; only supports what the verified code does with it."""
